@@ -115,7 +115,8 @@ Judge(s, r) ==
         d1 == DetConsume(s.d, r.iw)
     IN [f |-> IF ef # "ok" THEN ef
               ELSE IF DetOverrun(s.d, d1) THEN "env_detection_overrun" ELSE DetFailing(s.d, d1, r),
-        n |-> [e |-> EmNext(s.e, r), d |-> DetAfter(s.d, d1, r)]]
+        \* a reset of the clock domain (r.rst) puts both back into their initial state with the next edge
+        n |-> IF r.rst THEN [e |-> EmInit, d |-> DetInit] ELSE [e |-> EmNext(s.e, r), d |-> DetAfter(s.d, d1, r)]]
 SInit == [e |-> EmInit, d |-> DetInit]
 -----------------------------------------------------------------------------
 (* The ordered sets of [USB3.2 Tables 6-3 .. 6-6] as words of four symbols (for `SetWords <- ...`). *)
